@@ -14,6 +14,7 @@ import (
 	"github.com/cockroachdb/errors/extgrpc"
 	egrpc "github.com/cockroachdb/errors/grpc"
 	"github.com/cockroachdb/errors/grpc/middleware"
+	libstatus "github.com/cockroachdb/errors/grpc/status"
 	"github.com/hydrogen18/memlistener"
 	"google.golang.org/grpc"
 	"google.golang.org/grpc/codes"
@@ -96,7 +97,8 @@ func draw(t *rapid.T) *pbt.Case {
 	c.Spec = g.Draw(t, rapid.IntRange(1, maxB).Draw(t, "budget"))
 	// An explicitly attached codes.Unknown is a code like any other.
 	for _, n := range c.Spec.Nodes() {
-		if n.K == "grpccode" && rapid.IntRange(0, 3).Draw(t, "unknown") == 0 {
+		if n.K == "grpccode" && (n.I[0] == int(codes.OK) || rapid.IntRange(0, 3).Draw(t, "unknown") == 0) {
+			// (a status with code OK is "no error" by gRPC's definition: outside the domain)
 			n.I[0] = int(codes.Unknown)
 		}
 	}
@@ -159,6 +161,12 @@ func check(c *pbt.Case, r *pbt.R) {
 	if rawSt.Code() != wantCode {
 		r.Failf("the status code visible to callers is not the attached code", "raw status code %v, attached %v\n%s", rawSt.Code(), wantCode, c.Spec)
 	}
+	if sc := libstatus.Code(got); sc != wantCode {
+		r.Failf("grpc/status.Code of the received error is not the attached code", "got %v want %v\n%s", sc, wantCode, c.Spec)
+	}
+	if sc := libstatus.Code(e0); sc != wantCode {
+		r.Failf("grpc/status.Code is not the code attached by the outermost WrapWithGrpcCode", "got %v want %v\n%s", sc, wantCode, c.Spec)
+	}
 	if gc := extgrpc.GetGrpcCode(got); gc != wantCode {
 		r.Failf("GetGrpcCode of the received error is not the attached code", "got %v want %v\n%s", gc, wantCode, c.Spec)
 	}
@@ -201,7 +209,14 @@ func check(c *pbt.Case, r *pbt.R) {
 }
 
 var prop = &pbt.Prop{ID: "C20", Part: "interceptors", Draw: draw, Check: check,
-	Valid: func(c *pbt.Case) bool { return gen.SpecRegular(c.Spec) }}
+	Valid: func(c *pbt.Case) bool {
+		for _, n := range c.Spec.Nodes() {
+			if n.K == "grpccode" && n.I[0] == int(codes.OK) {
+				return false
+			}
+		}
+		return gen.SpecRegular(c.Spec)
+	}}
 
 func TestProp(t *testing.T) { pbt.Run(t, prop) }
 
